@@ -29,7 +29,10 @@ func initSpan() {
 		"==",
 		func(_ *Thread, args []value.Value) (value.Value, value.Value) {
 			self := (*value.Span)(args[0].Pointer())
-			other := (*value.Span)(args[1].Pointer())
+			other, ok := args[1].SafeAsReference().(*value.Span)
+			if !ok {
+				return value.False.ToValue(), value.Undefined
+			}
 			return value.BoolVal(self.Equal(other)), value.Undefined
 		},
 		DefWithParameters(1),
